@@ -122,7 +122,9 @@ func (f *upstreamLimiter) Load(name string) (flowcontrol.FlowControl, bool) {
 			reason = "clientSets is not ready"
 		default:
 			fc := fcw.FlowControl()
-			if fc != nil {
+			// the reconcile loop publishes the remote wrapper before its first Sync:
+			// until then there is no limiter behind it, keep using the local one
+			if fc != nil && fc.Synced() {
 				return fc, true
 			}
 			reason = "remote flowcontrol is not synced"
